@@ -301,8 +301,8 @@ def header_invariants(derive, item, out, g):
     return probs
 
 
-def run(chk, tier):
-    thorough = tier == "thorough"
+def build(thorough):
+    """The program space: (support table, generics used, compile-engine cases, per-case (cid, generics), seam-A requests)."""
     tab = table()
     if len(tab) != 50:
         raise Exception("support table covers %d derives, expected 50" % len(tab))
@@ -341,6 +341,12 @@ def run(chk, tier):
                         item_only = re.sub(r"^#\[derive\(derive_more::\w+\)\] ", "", last) if last is not real else real
                         reqs.append({"derive": derive, "item": re.sub(r"#\[derive\([^\]]*\)\] ?", "", real)})
                         metas.append((cid, g))
+    return tab, gens, cases, metas, reqs
+
+
+def run(chk, tier):
+    thorough = tier == "thorough"
+    tab, gens, cases, metas, reqs = build(thorough)
     chk.part("space", programs=len(cases), derives=len(tab), templates=sum(len(v) for v in tab.values()), generics=[g["name"] for g in gens],
              naming=["plain", "raw identifiers (type, variant, field)"], decorations=list(DECOS))
     # ---------------- seam A
